@@ -127,6 +127,100 @@ def run_compdec(sx, cfg, env):
     _three(sx, op, _same_tree)
 
 
+# ---------------------------------------------------------------------------
+# two copies of the library: A (imported strict, flag flipped at RUN time) and B (imported with
+# the flag already False).  A module that binds the flag at import time ("from .exceptions import
+# strict_mode") behaves differently in the two copies.
+# ---------------------------------------------------------------------------
+def import_copy_b():
+    import importlib.abc
+    import importlib.machinery
+    import sys
+    mine = lambda k: k == "odxtools" or k.startswith("odxtools.") or k == "catalogue.build"  # noqa
+    saved = {k: v for k, v in sys.modules.items() if mine(k)}
+    for k in saved:
+        del sys.modules[k]
+
+    class Finder(importlib.abc.MetaPathFinder):
+        def find_spec(self, name, path, target=None):
+            if name != "odxtools.exceptions":
+                return None
+            spec = importlib.machinery.PathFinder.find_spec(name, path)
+            orig = spec.loader.exec_module
+
+            def exec_module(module):
+                orig(module)
+                module.strict_mode = False
+
+            spec.loader.exec_module = exec_module
+            return spec
+
+    f = Finder()
+    sys.meta_path.insert(0, f)
+    try:
+        import catalogue.build as build_b
+        import odxtools.request  # noqa
+        import odxtools.isotp_state_machine  # noqa
+        mods_b = {k: v for k, v in sys.modules.items() if k == "odxtools" or k.startswith("odxtools.")}
+    finally:
+        sys.meta_path.remove(f)
+        for k in [k for k in sys.modules if mine(k)]:
+            del sys.modules[k]
+        sys.modules.update(saved)
+    assert mods_b["odxtools.exceptions"].strict_mode is False
+    return build_b, mods_b
+
+
+def build_two(cfg):
+    env = cc.build_atom(cfg)
+    build_b, mods_b = import_copy_b()
+    env["rq_b"] = build_b.build_request(cc.request_spec(cfg))
+    env["extra_modules"] = mods_b
+    return env
+
+
+def _outcome2(fn):
+    try:
+        return ("ok", fn())
+    except Exception as e:  # noqa: BLE001  (the two copies have distinct exception classes)
+        names = [c.__name__ for c in type(e).__mro__]
+        if "OdxError" in names:
+            return ("err", [n for n in ("DecodeError", "EncodeError", "OdxError") if n in names][0])
+        return ("foreign", type(e).__name__)
+
+
+def _two(sx, env, op_a, op_b, same):
+    import sys
+    ex_a = sys.modules["odxtools.exceptions"]
+    ex_b = env["extra_modules"]["odxtools.exceptions"]
+    try:
+        for mode in (False, True):
+            ex_a.strict_mode = mode
+            ex_b.strict_mode = mode
+            a, b = _outcome2(op_a), _outcome2(op_b)
+            tag = "strict" if mode else "lenient"
+            sx.observe(tag, [a[0] if a[0] == "ok" else a[1], b[0] if b[0] == "ok" else b[1]])
+            sx.cover(tag + "-" + a[0])
+            sx.require(a[0] == b[0], f"{tag}:flag-set-at-run-time-equals-flag-set-at-import")
+            if a[0] == b[0] == "ok":
+                sx.require(same(a[1], b[1]), f"{tag}:flag-set-at-run-time-equals-flag-set-at-import")
+            elif a[0] == b[0]:
+                sx.require(a[1] == b[1], f"{tag}:flag-set-at-run-time-equals-flag-set-at-import")
+    finally:
+        ex_a.strict_mode = True
+        ex_b.strict_mode = False
+
+
+def run_two_enc(sx, cfg, env):
+    v = cc.the_value(sx, cfg)
+    _two(sx, env, lambda: env["rq"].encode(val=v), lambda: env["rq_b"].encode(val=v), _same_bytes)
+
+
+def run_two_dec(sx, cfg, env):
+    msg = sx.bytes("msg", cfg["mlen"])
+    _two(sx, env, lambda: env["rq"].decode(msg), lambda: env["rq_b"].decode(msg), _same_val)
+
+
 def build_layer(cfg):
     from harness import c06
     return c06.build_layer(cfg)
@@ -179,6 +273,10 @@ HARNESSES = {
             "must_cover": ["strict-ok", "strict-error", "downgraded"]},
     "dec": {"build": cc.build_atom, "run": run_dec, "width": 80, "limits": LIM,
             "must_cover": ["strict-ok", "strict-error", "downgraded"]},
+    "two-enc": {"build": build_two, "run": run_two_enc, "width": 80, "limits": LIM,
+                "must_cover": ["lenient-ok", "strict-ok", "strict-err"]},
+    "two-dec": {"build": build_two, "run": run_two_dec, "width": 80, "limits": LIM,
+                "must_cover": ["lenient-ok", "strict-ok", "strict-err"]},
     "compdec": {"build": None, "run": run_compdec, "width": 80, "limits": LIM,
                 "must_cover": ["strict-ok", "strict-error"]},
     "layer": {"build": build_layer, "run": run_layer, "width": 80, "limits": LIM,
@@ -214,6 +312,28 @@ def configs(tier, seed):
             c.update(harness="dec", id=f"dec/{cc.atom_id(b)}/len{n}", build=b, mlen=n,
                      tail=b.get("tail", True))
             out.append(c)
+    # two library copies: a subset of the atoms (every type / diag-coded type once or twice)
+    picked = {}
+    for a in cc.atoms(tier, seed):
+        if a.get("cmname") or a.get("mask") is not None:
+            continue
+        key = (a["dt"], a.get("enc"), a.get("dct", "std"), a.get("term"), a.get("vlen"), a.get("sidx"))
+        grp = (a["dt"], a.get("dct", "std"))
+        picked.setdefault(grp, {})
+        if key not in picked[grp] and len(picked[grp]) < (6 if tier == "quick" else 40):
+            picked[grp][key] = a
+    for grp in picked.values():
+        for a in grp.values():
+            b = {k: v for k, v in a.items() if k not in ("vlen", "sidx")}
+            c = dict(a)
+            c.update(harness="two-enc", id="two-enc/" + cc.atom_id(a), tail=a.get("tail", True), build=b)
+            out.append(c)
+            ml = c05.min_len(b)
+            for n in (ml, ml + 1):
+                d = dict(b)
+                d.update(harness="two-dec", id=f"two-dec/{cc.atom_id(b)}/len{n}", build=b, mlen=n,
+                         tail=b.get("tail", True))
+                out.append(d)
     for name in ("table", "table-row-ref", "mux", "dtc", "dynlen-field", "static-field",
                  "endmarker-field-mid", "length-key", "structure-bytesize", "physconst-reserved"):
         for n in ((2, 3, 4) if tier == "quick" else range(0, 7)):
